@@ -17,6 +17,7 @@
 
 #include <deque>
 #include <chrono>
+#include <memory>
 
 using namespace vf;
 typedef eventpp_verif::Access Access;
@@ -245,7 +246,9 @@ struct World : CallbackSink
 	struct alignas(16) Slot { unsigned char buf[sizeof(Q)]; };
 	Slot slots[MAXQ];
 	bool alive[MAXQ];
-	struct QM { ListModel lm; std::deque<int> pending; int active; std::vector<Handle> rh; QM() : active(0) {} };
+	struct QM { ListModel lm; std::deque<int> pending; int active; std::vector<Handle> rh; int disabled; QM() : active(0), disabled(0) {} };
+	typedef typename Q::DisableQueueNotify Dqn;
+	std::vector<std::unique_ptr<Dqn> > dqns[MAXQ]; // DisableQueueNotify objects alive on each queue (destroyed in any order)
 	QM qm[MAXQ];
 	int nq;
 	QMode mode;
@@ -270,7 +273,7 @@ struct World : CallbackSink
 		if(pat < 4) memset(slots[i].buf, kPrefill[pat], sizeof(Q));
 		else { Rng fill(rng.next()); for(size_t k = 0; k < sizeof(Q); ++k) slots[i].buf[k] = (unsigned char)fill.below(256); } // one draw: the object size must not influence the program
 	}
-	void destroyQ(int i) { if(alive[i]) { Qat(i).~Q(); alive[i] = false; } }
+	void destroyQ(int i) { if(alive[i]) { dqns[i].clear(); Qat(i).~Q(); alive[i] = false; } }
 
 	std::string pre() const { return "[" + num((long long)frames.size()) + "] "; }
 	void log(const std::string & s) { oplog(pre() + s); trace.add(s); }
@@ -614,7 +617,7 @@ struct World : CallbackSink
 	}
 	template <bool W = (Cfg::hasWait != 0)>
 	typename std::enable_if<W>::type doWaitFor0(int q) {
-		const bool want = ! modelEmpty(q);
+		const bool want = ! modelEmpty(q) && qm[q].disabled == 0; // released only with a non-empty queue AND notification enabled
 		const bool got = Qat(q).waitFor(std::chrono::milliseconds(0));
 		log("waitFor(0) Q" + num(q) + " -> " + num(got));
 		count("op.waitFor0");
@@ -622,6 +625,24 @@ struct World : CallbackSink
 	}
 	template <bool W = (Cfg::hasWait != 0)>
 	typename std::enable_if<! W>::type doWaitFor0(int q) { doEmpty(q); }
+
+	// DisableQueueNotify objects only defer notification: every other operation must behave exactly as without them
+	void doDqn(int q) {
+		QM & m = qm[q];
+		if(! dqns[q].empty() && (dqns[q].size() >= 3 || rng.chance(1, 2))) {
+			const size_t i = rng.below((uint32_t)dqns[q].size());
+			dqns[q].erase(dqns[q].begin() + (long)i);
+			--m.disabled;
+			log("~DisableQueueNotify Q" + num(q) + " (alive now: " + num(m.disabled) + ")");
+		}
+		else {
+			dqns[q].push_back(std::unique_ptr<Dqn>(new Dqn(&Qat(q))));
+			++m.disabled;
+			log("DisableQueueNotify Q" + num(q) + " (alive now: " + num(m.disabled) + ")");
+		}
+		count("op.DisableQueueNotify");
+	}
+	void dropDqns(int q) { dqns[q].clear(); qm[q].disabled = 0; }
 
 	// ---------- listeners
 	int pickListener(int q, int k) {
@@ -699,6 +720,7 @@ struct World : CallbackSink
 			if(ledger().liveOf(K_PAYLOAD, eids[i]) != 0) fail(std::string(what) + ":payload-not-released", "payload of " + evStr(eids[i]) + " still alive after " + what);
 	}
 	void recreate(int q, unsigned pat) {
+		dropDqns(q);
 		std::vector<int> gone(qm[q].pending.begin(), qm[q].pending.end());
 		dropPending(q, ES_DESTROYED);
 		destroyQ(q);
@@ -729,6 +751,7 @@ struct World : CallbackSink
 		static const char * names[] = { "copy_ctor", "copy_assign", "move_ctor", "move_assign", "recreate", "copy_assign" };
 		const std::string what = std::string(names[kind]) + " Q" + num(a) + " <- Q" + num(b);
 		count((std::string("structural.") + names[kind]).c_str());
+		dropDqns(a); dropDqns(b); // structural operations are made with notification enabled on both queues
 		switch(kind) {
 		case 0: { // copy construct over a
 			std::vector<int> gone(qm[a].pending.begin(), qm[a].pending.end());
@@ -796,7 +819,8 @@ struct World : CallbackSink
 		else if(c < 63) doPeek(q);
 		else if(c < 69) doTake(q);
 		else if(c < 71) doClear(q);
-		else if(c < 76) doEmpty(q);
+		else if(c < 75) doEmpty(q);
+		else if(c < 76) { if(! nested) doDqn(q); else doEmpty(q); }
 		else if(c < 78) doWaitFor0(q);
 		else if(c < 88) doAddListener(q);
 		else if(c < 94) doRemoveListener(q);
@@ -818,7 +842,7 @@ struct World : CallbackSink
 			std::string err = Access::checkSlots(rq);
 			if(! err.empty()) { fail("structure:" + err, "Q" + num(q) + ": " + err); return; }
 			if(Access::emptyCounter(rq) != 0) { fail("structure:processing-counter-not-zero-at-quiescence", "Q" + num(q) + " counter=" + num(Access::emptyCounter(rq))); return; }
-			if(Access::notifyCounter(rq) != 0) { fail("structure:notify-counter-not-zero-at-quiescence", "Q" + num(q) + " counter=" + num(Access::notifyCounter(rq))); return; }
+			if(Access::notifyCounter(rq) != m.disabled) { fail("structure:notify-counter-not-zero-at-quiescence", "Q" + num(q) + " counter=" + num(Access::notifyCounter(rq)) + ", DisableQueueNotify objects alive: " + num(m.disabled)); return; }
 			countMax("max_free_slots", Access::freeSize(rq));
 			countMax("max_pending", m.pending.size());
 		}
@@ -846,6 +870,7 @@ struct World : CallbackSink
 			if(! frames.empty() && ! dead) { fail("harness:frames-left", "frame stack not empty at top level"); break; }
 			quiescent();
 		}
+		for(int q = 0; q < nq; ++q) dropDqns(q);
 		// drain: everything still pending must come out exactly once, in order
 		for(int q = 0; q < nq && ! dead; ++q) {
 			if(rng.chance(1, 3)) continue; // leave events pending: destruction must release them
